@@ -58,6 +58,39 @@ def classify_split(spellings):
     return None
 
 
+def block_density_failure(comp):
+    '''The COMPOSITION block named m<k>_<d> must CARRY the density d: a mass
+    density (d < 0) is written as DENSITY |d|; an atom density (d > 0) as
+    POINT_WISE concentrations that add up to d (blocks without nuclides —
+    mass fractions with an atom density, not supported by the converter — are
+    left alone).  Returns a description or None.'''
+    tok = parse_name(comp['name'])
+    if tok is None or tok[1] is None:
+        return None
+    try:
+        want = float(tok[1])
+    except ValueError:
+        return None
+    if want < 0:
+        try:
+            got = float(comp['density']) if comp['type'] == 'DENSITY' else None
+        except (TypeError, ValueError):
+            got = None
+        if got is None or abs(got + want) > 1e-12 * abs(want):
+            return (f'composition {comp["name"]} is written as {comp["type"]} '
+                    f'{comp["density"]}, not as DENSITY {-want}')
+    elif want > 0 and comp['items']:
+        if comp['type'] != 'POINT_WISE':
+            return (f'composition {comp["name"]} (atom density) is written as '
+                    f'{comp["type"]}')
+        total = sum(impl.mcnp_float(a) for _, a in comp['items'])
+        if abs(total - want) > 1e-9 * abs(want):
+            return (f'composition {comp["name"]}: the concentrations add up to '
+                    f'{total!r}, not to the density {want!r} of the cells '
+                    'attached to it')
+    return None
+
+
 # ---- the oracle -------------------------------------------------------------
 
 def leaf_of_chain(ref, chain):
@@ -78,6 +111,7 @@ def check_file(deck, t4, rng, n_points=200, compositions=True):
         for vid in vols:
             comp_of.setdefault(vid, []).append(name)
     comp_names = {c['name'] for c in t4.compositions} | {'m0'}
+    blocks = {c['name']: c for c in t4.compositions}
     # every emitted non-virtual volume is in exactly one GEOMCOMP line
     for vid, vol in t4.volumes.items():
         if vol['fictive']:
@@ -175,6 +209,12 @@ def check_file(deck, t4, rng, n_points=200, compositions=True):
         if got is None or abs(got - want) > 1e-12 * abs(want):
             failures.append({'kind': 'wrong-density', 'cls': None,
                              'why': where, 'point': list(p)})
+            continue
+        block = blocks.get(name)
+        why = block_density_failure(block) if block else None
+        if why:
+            failures.append({'kind': 'wrong-block-density', 'cls': None,
+                             'why': where + ': ' + why, 'point': list(p)})
             continue
         by_value.setdefault(name, set()).add((mat_num, want))
         cls_key = raw.get('cls')
